@@ -1,3 +1,145 @@
-/- C04 — property theorems over Qfx.Model.Session (placeholder being filled; see checklist at the end) -/
-import Qfx.Spec.Session
-open Qfx Qfx.Sess Qfx.SessSpec
+/-
+  C04 — "A sequence gap triggers one exact ResendRequest and loses nothing received".
+  Property theorems only (helper lemmas: Qfx/Lemmas/SessC04.lean).
+
+  properties.jsonl: "When a message arrives whose MsgSeqNum is above the next expected number T, the engine sends exactly
+  one ResendRequest with BeginSeqNo T (EndSeqNo 'infinity', or T+chunk-1 when a chunk size smaller than the gap is
+  configured), keeps the early message, and while recovery is in progress sends no further ResendRequest other than those
+  for the following chunks, each beginning at the number expected at that moment. Once the missing numbers have arrived as
+  replays or gap fills, every kept message that is next in sequence is delivered, in order and without being requested
+  again, and when the peer skipped nothing the session returns to normal operation expecting one past the highest message
+  received."
+-/
+import Qfx.Lemmas.SessC04
+open Qfx Qfx.Sess
+
+/-! ### the first request -/
+
+/-- **C04 (request)**: normal operation (`inSession`, also with a TestRequest pending), any configuration, any message of a
+    sequence-gated kind that passes the BeginString / CompID / SendingTime gates and carries a number `n` above the
+    expected number `T`: the handler does exactly one thing — it sends the ResendRequest `7=T`, `16=infinity` (0 from
+    FIX.4.2 on, 999999 before) or `16=T+chunk-1` when a chunk size is configured and the chunk ends before `n-1` — and
+    the next state is the recovery state holding exactly the early message, the end of the requested chunk (0 = all) and
+    the end of the gap `n-1`. -/
+theorem C04_request (s : Sess) (m : InMsg) (n : Int)
+    (hst : s.st = .inSession ∨ s.st = .pendingIn)
+    (hb : checkBeginString s m = none) (hc : checkCompID s m = none) (ht : checkSendingTime s m = none)
+    (hk : SeqGated m) (hn : getInt m 34 = .val n) (hgt : n > s.store.target) :
+    fixMsgInCore s m =
+      (sendInReplyTo s (mkOut "2" [(7, toString s.store.target), (16, toString (chunkEnd s.cfg s.store.target (n - 1)))]),
+       .resend [(n, m)] (chunkCur s.cfg s.store.target (n - 1)) (n - 1)) := by
+  have hcur : curResend s = none := by rcases hst with h | h <;> simp [curResend, h]
+  have h1 : fixMsgInCore s m = inSessionFixMsgIn s m := by rcases hst with h | h <;> simp [fixMsgInCore, h]
+  rw [h1, inSessionFixMsgIn_high s m n hb hc (Or.inr ht) hk hn hgt, processReject_high_fresh s m n _ hcur]
+  rfl
+
+/-- what "sends" means: the request gets the next outbound number, is handed to the store, is written after whatever was
+    still queued (or queued when there is no connection); nothing else changes — in particular the expected number -/
+theorem C04_request_sent (s : Sess) (b e : Int) (hl : s.st.loggedOn = true) :
+    AdminSent s (rrMsg s.cfg b e) (sendInReplyTo s (rrMsg s.cfg b e)) :=
+  adminSent s _ rfl rfl hl
+
+/-- the same on the whole event `Incoming(m)`: the observations are exactly the store write, the queued messages (if
+    any) and the ResendRequest on the wire, then the peer timer; nothing is delivered, the expected number stays -/
+theorem C04_request_step (s : Sess) (m : InMsg) (n : Int)
+    (hst : s.st = .inSession ∨ s.st = .pendingIn)
+    (hb : checkBeginString s m = none) (hc : checkCompID s m = none) (ht : checkSendingTime s m = none)
+    (hk : SeqGated m) (hn : getInt m 34 = .val n) (hgt : n > s.store.target) :
+    (step s (.incomingMsg (some m))).1.st = .resend [(n, m)] (chunkCur s.cfg s.store.target (n - 1)) (n - 1) ∧
+    (step s (.incomingMsg (some m))).1.store.target = s.store.target ∧
+    (step s (.incomingMsg (some m))).1.toSend =
+      (if s.out then [] else s.toSend ++ [numbered s (rrMsg s.cfg s.store.target (n - 1))]) ∧
+    (step s (.incomingMsg (some m))).2.1 =
+      persistObs s.cfg (numbered s (rrMsg s.cfg s.store.target (n - 1))) ::
+        (if s.out then (s.toSend ++ [numbered s (rrMsg s.cfg s.store.target (n - 1))]).map Obs.wire else [])
+        ++ [.armPeer (1200 * s.hb)] := by
+  have hconn : s.st.connected = true := by rcases hst with h | h <;> simp [h, SState.connected]
+  have hl : s.clearLog.st.loggedOn = true := by rcases hst with h | h <;> simp [Sess.clearLog, h, SState.loggedOn]
+  have hs : AdminSent s.clearLog (rrMsg s.cfg s.store.target (n - 1)) (sendInReplyTo s.clearLog (rrMsg s.cfg s.store.target (n - 1))) :=
+    C04_request_sent s.clearLog s.store.target (n - 1) hl
+  have hr : fixMsgInCore s.clearLog m = (sendInReplyTo s.clearLog (rrMsg s.cfg s.store.target (n - 1)),
+      .resend [(n, m)] (chunkCur s.cfg s.store.target (n - 1)) (n - 1)) := C04_request s.clearLog m n hst hb hc ht hk hn hgt
+  rw [step_incoming_eq s m hconn _ hr rfl]
+  refine ⟨rfl, hs.target, hs.queue, ?_⟩
+  simp only [hs.log, hs.hb]
+  simp [Sess.clearLog, numbered]
+
+/-! ### while recovery is in progress -/
+
+/-- **C04 (no duplicate)**: any recovery state (`resend`, and `pending(resend)` — the model follows the fixed code in
+    which the type switches look through a pending TestRequest), ANY inbound message (any kind, any header): everything
+    the handler does up to an intermediate state `s1` creates no ResendRequest (`Q 0`: the number of ResendRequests
+    written or queued does not grow, and state tag / configuration / buffered input are untouched); after that either
+    nothing more happens, or — only when a chunk is outstanding (`cur ≠ 0`) and the expected number has reached its end —
+    exactly one ResendRequest is sent, for the next chunk: `7 = the number expected at that moment`, `16` = its chunk
+    end or infinity relative to the original gap end `fin`. -/
+theorem C04_no_duplicate (s : Sess) (m : InMsg) (stash : List (Int × InMsg)) (cur fin : Int)
+    (h : curResend s = some (stash, cur, fin)) :
+    ∃ s1, Q 0 s s1 ∧
+      ((fixMsgInCore s m).1 = s1 ∨
+       (cur ≠ 0 ∧ cur ≤ s1.store.target ∧ ∃ stash',
+          fixMsgInCore s m =
+            (sendInReplyTo s1 (mkOut "2" [(7, toString s1.store.target), (16, toString (chunkEnd s1.cfg s1.store.target fin))]),
+             .resend stash' (chunkCur s1.cfg s1.store.target fin) fin))) := by
+  rw [fixMsgInCore_rec s m stash cur fin h]
+  exact resendFixMsgIn_shape s stash cur fin m (by rw [h]; rfl)
+
+/-- in particular: when the whole rest was requested (`cur = 0`, always the case without a chunk size) no inbound
+    message whatsoever makes the engine create another ResendRequest … -/
+theorem C04_no_duplicate_all_requested (s : Sess) (m : InMsg) (stash : List (Int × InMsg)) (fin : Int)
+    (h : curResend s = some (stash, 0, fin)) : Q 0 s (fixMsgInCore s m).1 := by
+  rw [fixMsgInCore_rec s m stash 0 fin h]
+  simpa using q_resendFixMsgIn s stash 0 fin m (by rw [h]; rfl)
+
+/-- … and with a chunk outstanding at most one -/
+theorem C04_no_duplicate_budget (s : Sess) (m : InMsg) (stash : List (Int × InMsg)) (cur fin : Int)
+    (h : curResend s = some (stash, cur, fin)) : Q (if cur ≠ 0 then 1 else 0) s (fixMsgInCore s m).1 := by
+  rw [fixMsgInCore_rec s m stash cur fin h]
+  exact q_resendFixMsgIn s stash cur fin m (by rw [h]; rfl)
+
+/-- the same on the whole event `Incoming(m)` (nothing buffered in the inbound channel), including the disconnect
+    handling when the handler ends the session: the ResendRequests on the wire during the event plus those still queued
+    afterwards are at most those queued before, plus one when a chunk was outstanding -/
+theorem C04_no_duplicate_step (s : Sess) (m : InMsg) (stash : List (Int × InMsg)) (cur fin : Int)
+    (h : curResend s = some (stash, cur, fin)) (hi : s.inbox = []) :
+    rrAfter (step s (.incomingMsg (some m))) ≤ s.toSend.countP isRR + (if cur ≠ 0 then 1 else 0) :=
+  rrAfter_incoming_rec s m stash cur fin h hi
+
+/-! ### the early message is kept -/
+
+/-- **C04 (kept)**: recovery in progress (`target ≤ fin`), a sequence-gated message passing the identity gates (the
+    SendingTime check is skipped during recovery) with a number above the expected one, GapFillFlag not garbled: the
+    message is in the stash of the next state, which is again the recovery state for the same gap; the expected number
+    is unchanged; the session record is untouched (nothing sent, nothing delivered), except that when the current chunk
+    has been satisfied (`cur ≠ 0 ∧ cur ≤ target`) the request for the next chunk goes out. -/
+theorem C04_kept (s : Sess) (m : InMsg) (stash : List (Int × InMsg)) (cur fin n : Int)
+    (h : curResend s = some (stash, cur, fin))
+    (hb : checkBeginString s m = none) (hc : checkCompID s m = none)
+    (hk : SeqGated m) (hn : getInt m 34 = .val n) (hgt : n > s.store.target)
+    (hg : getBool m 123 ≠ .garbled) (hfin : s.store.target ≤ fin) :
+    fixMsgInCore s m = (s, .resend (stashInsert stash n m) cur fin) ∨
+    (cur ≠ 0 ∧ cur ≤ s.store.target ∧
+      fixMsgInCore s m =
+        (sendInReplyTo s (rrMsg s.cfg s.store.target fin),
+         .resend (stashInsert stash n m) (chunkCur s.cfg s.store.target fin) fin)) := by
+  rw [fixMsgInCore_rec s m stash cur fin h]
+  exact resendFixMsgIn_high s stash cur fin m n h hb hc hk hn hgt hg hfin
+
+/-- the usual case — the chunk currently requested is not yet complete, or everything was requested at once -/
+theorem C04_kept_quiet (s : Sess) (m : InMsg) (stash : List (Int × InMsg)) (cur fin n : Int)
+    (h : curResend s = some (stash, cur, fin))
+    (hb : checkBeginString s m = none) (hc : checkCompID s m = none)
+    (hk : SeqGated m) (hn : getInt m 34 = .val n) (hgt : n > s.store.target)
+    (hg : getBool m 123 ≠ .garbled) (hfin : s.store.target ≤ fin) (hcur : cur = 0 ∨ s.store.target < cur) :
+    fixMsgInCore s m = (s, .resend (stashInsert stash n m) cur fin) := by
+  rcases C04_kept s m stash cur fin n h hb hc hk hn hgt hg hfin with h1 | ⟨h1, h2, _⟩
+  · exact h1
+  · omega
+
+theorem C04_kept_mem (stash : List (Int × InMsg)) (n : Int) (m : InMsg) : (n, m) ∈ stashInsert stash n m := by
+  simp [stashInsert]
+
+/-- earlier stash entries with other numbers survive -/
+theorem C04_kept_others (stash : List (Int × InMsg)) (n k : Int) (m m' : InMsg) (hk : k ≠ n) (h : (k, m') ∈ stash) :
+    (k, m') ∈ stashInsert stash n m := by
+  simp [stashInsert, h, hk]
